@@ -136,9 +136,7 @@ theorem atomic_mergeRc (k : Kind) (rc base : Xml) (mid : Option PyExc) :
   case StoryInsert =>
     split
     · exact atomic_failWith _ _ _
-    · split
-      · exact atomic_failWith _ _ _
-      · exact atomic_insertDedup _ _ _ _ _ _ _
+    · exact atomic_insertDedup _ _ _ _ _ _ _
   case ItemInsert => exact atomic_inStory _ _ _ _ (fun items => atomic_insertBefore _ _ _ _ _)
   case StoryMove =>
     split
@@ -190,9 +188,7 @@ theorem atomic_mergeRc (k : Kind) (rc base : Xml) (mid : Option PyExc) :
   case EAStoryInsert =>
     split
     · exact atomic_failWith _ _ _
-    · split
-      · exact atomic_failWith _ _ _
-      · exact atomic_insertDedup _ _ _ _ _ _ _
+    · exact atomic_insertDedup _ _ _ _ _ _ _
   case EAItemInsert => exact atomic_inStory _ _ _ _ (fun items => atomic_insertBefore _ _ _ _ _)
   case EAStorySwap => exact atomic_swapTwo _ _ _ _
   case EAItemSwap => exact atomic_inStory _ _ _ _ (fun items => atomic_swapTwo _ _ _ _)
